@@ -415,6 +415,34 @@ def run_table_case(ctx, inp):
         res.violation("property-violation", msg, impl=out.head(20).to_dict(),
                       signature=dict(stream="table", what=msg.split(":")[0]))
         return res
+    # ---- the same table with its position (and frame) columns called otherwise: same labels
+    if "pos_columns" in kw and inp["row_seed"] % 3 == 0:
+        new = [["x0", "x1", "x2"], ["xc", "yc", "zc"], ["x_um", "y_um", "z_um"], ["col", "row", "plane"],
+               [0, 1, 2]][(inp["row_seed"] // 3) % 5][:dim]
+        fwd = dict(zip(cols, new))
+        kw2 = dict(kw, pos_columns=new)
+        tcol = "frame"
+        if (inp["row_seed"] // 15) % 2 == 0 and df.index.name != "frame":
+            tcol = ["t", "frame_no", "time"][(inp["row_seed"] // 30) % 3]
+            fwd["frame"] = tcol
+            kw2["t_column"] = tcol
+        try:
+            out2 = tp.link(df.rename(columns=fwd), linkcommon.search_range_arg(inp), **kw2)
+        except Exception as e:
+            res.violation("property-violation", "link with columns called %s / %s raised %s: %s"
+                          % (new, tcol, type(e).__name__, str(e)[:200]),
+                          signature=dict(stream="table", what="renamed-columns-raise"))
+            return res
+        res.stat("renamed_columns_compared")
+        same = (len(out2) == len(out) and list(out2.index) == list(out.index)
+                and list(out2["particle"].values) == list(out["particle"].values)
+                and list(out2.columns) == [fwd.get(c, c) for c in out.columns])
+        if not same:
+            res.violation("property-violation", "link with columns called %s / %s gives other labels, "
+                          "rows or columns than with %s / frame" % (new, tcol, cols),
+                          impl=out2.head(20).to_dict(), model=out.head(20).to_dict(),
+                          signature=dict(stream="table", what="renamed-columns"))
+            return res
     # ---- function mode: the adapters against Model/LinkTable.lean
     table_function_mode(ctx, res, inp, df, out, spy, cols)
     coords_direct_mode(ctx, res, inp, df, cols)
